@@ -2,7 +2,7 @@
 # confirm_seed.sh <prop> <k> : in scratch worktree /tmp/wt-<prop>, confirm that seed <k>
 #  (1) demo passes on clean tree, (2) patched tree passes full suite, (3) demo fails on patched tree.
 # Writes /tmp/seeds/<prop>/<k>/confirm.json
-P=$1; K=$2; WT=/tmp/wt-$P; S=/tmp/seeds/$P/$K
+P=$1; K=$2; WT=/tmp/wt-$P; S=${SEEDS:-/tmp/seeds}/$P/$K
 cd $WT || exit 2
 git checkout -q -- . ; rm -f tests/seed_demo.rs
 FEAT=""
